@@ -134,6 +134,13 @@ def _run_cloud(rec, dreye, name, P, family, tier, seed, uniform=True):
                 Xi = np.asarray(dreye.sample_in_hull(P.astype(np.int64), 64, seed=5, engine=engine), dtype=float)
                 Xf = np.asarray(dreye.sample_in_hull(P.astype(float), 64, seed=5, engine=engine), dtype=float)
                 same = Xi.shape == Xf.shape and bool(np.array_equal(Xi, Xf))
+                # 8-bit clouds (pixel values): scaled so that edge differences exceed the range of the type if they were formed in it
+                f8 = 200.0 / max(1.0, float(np.max(P)))
+                P8 = np.round(P * f8)
+                if np.all(P8 >= 0):
+                    X8 = np.asarray(dreye.sample_in_hull(P8.astype(np.uint8), 64, seed=5, engine=engine), dtype=float)
+                    X8f = np.asarray(dreye.sample_in_hull(P8.astype(float), 64, seed=5, engine=engine), dtype=float)
+                    same = same and X8.shape == X8f.shape and bool(np.array_equal(X8, X8f))
             except Exception as e:  # noqa
                 same = False
             rec.outcome("int-typed-cloud/%s" % ("same" if same else "differs"))
